@@ -36,7 +36,7 @@ ASSUMPTIONS = [
 ]
 CASES = {'quick': 22000, 'thorough': 300000}
 TIME = {'quick': 70, 'thorough': 560}
-MIN_NONTRIVIAL = {'quick': 2000, 'thorough': 20000}
+MIN_NONTRIVIAL = {'quick': 1500, 'thorough': 12000}
 REQUIRED = ('decisions_checked', 'terminal_states_checked',
             'allin_runout_hands', 'multi_runout_hands',
             'phase_transitions_checked', 'constructor_cascades',
